@@ -25,6 +25,8 @@ enum Op {
     Close,
     Read { addr: u64, n: usize },
     Write { addr: u64, n: usize, pat: u64 },
+    /// `disable_streaming()`
+    Disable,
     /// recovery only: if the device still has unfetched packets queued, a 4-byte read that may
     /// fail (it drains stale packets) but must never return wrong data; skipped otherwise
     Settle,
@@ -45,6 +47,9 @@ struct SessionSpec {
     release_err: Option<UsbErr>,
     /// Maximum Device Response Time the device advertises (ms)
     resp_ms: u32,
+    /// SBRM U3VCP capability (bit 0: SIRM available) and SIRM address the device advertises
+    u3v_cap: u64,
+    sirm_addr: u64,
 }
 
 /* ---------- (de)serialisation of faults and sessions for replay files ---------- */
@@ -122,6 +127,7 @@ fn op_json(o: &Op) -> Value {
         Op::Open => json!({"op": "open"}),
         Op::Close => json!({"op": "close"}),
         Op::Settle => json!({"op": "settle"}),
+        Op::Disable => json!({"op": "disable"}),
         Op::Read { addr, n } => json!({"op": "read", "addr": addr.to_string(), "n": n}),
         Op::Write { addr, n, pat } => json!({"op": "write", "addr": addr.to_string(), "n": n, "pat": pat}),
     }
@@ -134,6 +140,7 @@ fn op_from(v: &Value) -> Op {
         "open" => Op::Open,
         "close" => Op::Close,
         "settle" => Op::Settle,
+        "disable" => Op::Disable,
         "read" => Op::Read { addr: a("addr"), n: u("n") as usize },
         "write" => Op::Write { addr: a("addr"), n: u("n") as usize, pat: u("pat") },
         other => panic!("unknown op {other}"),
@@ -158,7 +165,7 @@ fn spec_json(s: &SessionSpec) -> Value {
         "faults": s.faults.iter().map(|(i, f)| json!([i, fault_str(f)])).collect::<Vec<_>>(),
         "claim_err": s.claim_err.map(|e| e.name()), "control_err": err_json(&s.control_err),
         "clear_halt_err": err_json(&s.clear_halt_err), "release_err": s.release_err.map(|e| e.name()),
-        "resp_ms": s.resp_ms,
+        "resp_ms": s.resp_ms, "u3v_cap": s.u3v_cap.to_string(), "sirm_addr": s.sirm_addr.to_string(),
     })
 }
 
@@ -177,6 +184,8 @@ fn spec_from(v: &Value) -> SessionSpec {
         clear_halt_err: err_from(&v["clear_halt_err"]),
         release_err: name("release_err"),
         resp_ms: v["resp_ms"].as_u64().unwrap_or(1) as u32,
+        u3v_cap: v["u3v_cap"].as_str().map_or(1, |x| x.parse().unwrap()),
+        sirm_addr: v["sirm_addr"].as_str().map_or(0x2_0000, |x| x.parse().unwrap()),
     }
 }
 
@@ -269,7 +278,7 @@ fn sane_limits(s: &SessionSpec) -> bool {
 
 fn run_session(rep: &mut Report, spec: &SessionSpec, label: &str) {
     *CURRENT.lock().unwrap() = spec_json(spec).to_string();
-    let boot = Bootstrap { max_cmd: spec.adv_cmd, max_ack: spec.adv_ack, response_time_ms: spec.resp_ms, ..Bootstrap::default() };
+    let boot = Bootstrap { max_cmd: spec.adv_cmd, max_ack: spec.adv_ack, response_time_ms: spec.resp_ms, u3v_capability: spec.u3v_cap, sirm_addr: spec.sirm_addr, ..Bootstrap::default() };
     let mut mem = SparseMem::new(spec.seed);
     boot.install(&mut mem);
     let mut cfg = DevCfg { pending_plan: spec.plan.clone(), ..DevCfg::default() };
@@ -308,6 +317,9 @@ fn run_session(rep: &mut Report, spec: &SessionSpec, label: &str) {
     // an `open` hit by a fault returned Ok: the negotiated configuration may be garbage (the
     // fault corrupted the payload of a bootstrap register read, which no host can detect)
     let mut tainted = false;
+    // a `disable_streaming` hit by a fault may have cached a corrupted SBRM address / capability /
+    // SIRM address (payload corruption is undetectable, the caches live as long as the handle)
+    let mut caches_tainted = false;
     let mut any_err = false;
     let mut opened = false;
     let mut ops: Vec<Op> = spec.ops.clone();
@@ -353,6 +365,7 @@ fn run_session(rep: &mut Report, spec: &SessionSpec, label: &str) {
         let (name, req, r): (&str, String, Result<Result<Option<Vec<u8>>, &'static str>, ()>) = match &op {
             Op::Open => ("open", "c07 open".into(), guarded(|| h.open().map(|_| None).map_err(|e| control_error_name(&e)))),
             Op::Close => ("close", "c07 close".into(), guarded(|| h.close().map(|_| None).map_err(|e| control_error_name(&e)))),
+            Op::Disable => ("disable", "c07 disable".into(), guarded(|| h.disable_streaming().map(|_| None).map_err(|e| control_error_name(&e)))),
             Op::Read { addr, n } => {
                 let mut buf = vec![0xEEu8; *n];
                 let r = guarded(|| h.read(*addr, &mut buf).map_err(|e| control_error_name(&e)));
@@ -505,6 +518,14 @@ fn run_session(rep: &mut Report, spec: &SessionSpec, label: &str) {
         if opened && matches!(r, Ok(Err("NotOpened"))) {
             violate(rep, "not-usable-after-error", name, format!("{name} returned NotOpened although the last open succeeded and close was not called"));
         }
+        let in_space = in_space && match &op {
+            Op::Disable => spec.u3v_cap & 1 == 1 && spec.sirm_addr.checked_add(8).is_some(),
+            _ => true,
+        };
+        if matches!(op, Op::Disable) && faulted_here {
+            caches_tainted = true;
+        }
+        let in_space = in_space && !(matches!(op, Op::Disable) && caches_tainted);
         let expect_ok = !faulted_here && !tainted && in_space && sane_limits(spec) && (opened || matches!(op, Op::Open | Op::Close))
             && settle != Some(false);
         if settle.is_some() {
@@ -606,10 +627,12 @@ fn main() {
         (1024, 1024, 5, vec![], vec![Op::Open, Op::Write { addr: 0x6000, n: 2000, pat: 5 }, Op::Read { addr: 0x6000, n: 2000 }]),
     ];
 
+    let mut scenarios = scenarios;
+    scenarios.push((64, 64, 3, vec![], vec![Op::Open, Op::Disable, Op::Disable, Op::Read { addr: 0x2_0004, n: 4 }, Op::Close, Op::Open, Op::Disable]));
     // number of transactions of a fault-free run of each scenario
     let mut txn_counts = vec![];
     for (mc, ma, retry, plan, ops) in &scenarios {
-        let spec = SessionSpec { seed: 3, adv_cmd: *mc, adv_ack: *ma, retry: *retry, plan: plan.clone(), ops: ops.clone(), faults: vec![], claim_err: None, control_err: None, clear_halt_err: None, release_err: None, resp_ms: 1 };
+        let spec = SessionSpec { seed: 3, adv_cmd: *mc, adv_ack: *ma, retry: *retry, plan: plan.clone(), ops: ops.clone(), faults: vec![], claim_err: None, control_err: None, clear_halt_err: None, release_err: None, resp_ms: 1, u3v_cap: 1, sirm_addr: 0x2_0000 };
         let before = rep.n_violations;
         run_session(&mut rep, &spec, "fault-free");
         let _ = before;
@@ -628,6 +651,7 @@ fn main() {
                 Op::Read { addr, n } => { let mut b = vec![0; *n]; let _ = h.read(*addr, &mut b); }
                 Op::Write { addr, n, pat } => { let _ = h.write(*addr, &data_pattern(*n, *pat)); }
                 Op::Settle => {}
+                Op::Disable => { let _ = h.disable_streaming(); }
             }
         }
         txn_counts.push(usb.lock().txn);
@@ -691,7 +715,7 @@ fn main() {
                 // pendings that need pending acks only make sense with a pending-capable retry
                 let spec = SessionSpec {
                     seed: 3, adv_cmd: *mc, adv_ack: *ma, retry: *retry, plan: plan.clone(), ops: ops.clone(),
-                    faults: vec![(idx, f.clone())], claim_err: None, control_err: None, clear_halt_err: None, release_err: None, resp_ms: 1,
+                    faults: vec![(idx, f.clone())], claim_err: None, control_err: None, clear_halt_err: None, release_err: None, resp_ms: 1, u3v_cap: 1, sirm_addr: 0x2_0000,
                 };
                 run_session(&mut rep, &spec, "single");
                 rep.count(&format!("fault:{}", fault_class(f)));
@@ -713,7 +737,7 @@ fn main() {
         for idx in 0..txn_counts[0] {
             for f in &waiting {
                 let spec = SessionSpec { seed: 3, adv_cmd: *mc, adv_ack: *ma, retry: *retry, plan: plan.clone(), ops: ops.clone(),
-                    faults: vec![(idx, f.clone())], claim_err: None, control_err: None, clear_halt_err: None, release_err: None, resp_ms: resp };
+                    faults: vec![(idx, f.clone())], claim_err: None, control_err: None, clear_halt_err: None, release_err: None, resp_ms: resp, u3v_cap: 1, sirm_addr: 0x2_0000 };
                 run_session(&mut rep, &spec, "degenerate-response-time");
             }
         }
@@ -726,7 +750,7 @@ fn main() {
             for idx in [6u64, 10] {
                 let (mc, ma, retry, plan, ops) = &scenarios[0];
                 let spec = SessionSpec { seed: 3, adv_cmd: *mc, adv_ack: *ma, retry: *retry, plan: plan.clone(), ops: ops[..4].to_vec(),
-                    faults: vec![(idx, Fault::Status(code as u16))], claim_err: None, control_err: None, clear_halt_err: None, release_err: None, resp_ms: 1 };
+                    faults: vec![(idx, Fault::Status(code as u16))], claim_err: None, control_err: None, clear_halt_err: None, release_err: None, resp_ms: 1, u3v_cap: 1, sirm_addr: 0x2_0000 };
                 run_session(&mut rep, &spec, "all-status-codes");
             }
             if code % 4096 == 4095 {
@@ -746,7 +770,7 @@ fn main() {
         let spec = SessionSpec {
             seed: rng.below(200), adv_cmd: *mc, adv_ack: *ma, retry: *retry, plan: plan.clone(), ops: ops.clone(),
             faults: vec![(i1, rng.pick(&faults).clone()), (i2, rng.pick(&faults).clone())],
-            claim_err: None, control_err: None, clear_halt_err: None, release_err: None, resp_ms: 1,
+            claim_err: None, control_err: None, clear_halt_err: None, release_err: None, resp_ms: 1, u3v_cap: 1, sirm_addr: 0x2_0000,
         };
         run_session(&mut rep, &spec, "double");
     }
@@ -755,7 +779,7 @@ fn main() {
     // open-path transport errors: claim / set_halt (2 control requests) / clear_halt (2) / release
     for e in UsbErr::ALL {
         let (mc, ma, retry, plan, ops) = &scenarios[0];
-        let base = SessionSpec { seed: 3, adv_cmd: *mc, adv_ack: *ma, retry: *retry, plan: plan.clone(), ops: ops.clone(), faults: vec![], claim_err: None, control_err: None, clear_halt_err: None, release_err: None, resp_ms: 1 };
+        let base = SessionSpec { seed: 3, adv_cmd: *mc, adv_ack: *ma, retry: *retry, plan: plan.clone(), ops: ops.clone(), faults: vec![], claim_err: None, control_err: None, clear_halt_err: None, release_err: None, resp_ms: 1, u3v_cap: 1, sirm_addr: 0x2_0000 };
         run_session(&mut rep, &SessionSpec { claim_err: Some(e), ..base.clone() }, "open-path");
         for n in 0..4 {
             run_session(&mut rep, &SessionSpec { control_err: Some((n, e)), ..base.clone() }, "open-path");
@@ -783,17 +807,26 @@ fn main() {
             for (ri, retry) in [0u16, 1, 3].into_iter().enumerate() {
                 // the advertised response time rotates through 1, 0 and u32::MAX ms
                 let resp_ms = [1u32, 0, u32::MAX][(ri + (*mc as usize % 3) + (*ma as usize % 2)) % 3];
-                let spec = SessionSpec { seed: 5, adv_cmd: *mc, adv_ack: *ma, retry, plan: vec![], ops: ops.clone(), faults: vec![], claim_err: None, control_err: None, clear_halt_err: None, release_err: None, resp_ms };
+                let spec = SessionSpec { seed: 5, adv_cmd: *mc, adv_ack: *ma, retry, plan: vec![], ops: ops.clone(), faults: vec![], claim_err: None, control_err: None, clear_halt_err: None, release_err: None, resp_ms, u3v_cap: 1, sirm_addr: 0x2_0000 };
                 run_session(&mut rep, &spec, "degenerate-limits");
             }
         }
     }
+    // disable_streaming with degenerate SIRM bootstrap values: SIRM not available, SI_CONTROL
+    // ending exactly at / beyond the top of the address space, on a closed handle
+    for (cap, sirm) in [(0u64, 0x2_0000u64), (2, 0x2_0000), (1, u64::MAX - 7), (1, u64::MAX - 6), (1, u64::MAX - 3), (1, u64::MAX), (u64::MAX, 0)] {
+        for (mc, ma) in [(64u32, 64u32), (20, 64), (64, 12), (24, 20)] {
+            let spec = SessionSpec { seed: 5, adv_cmd: mc, adv_ack: ma, retry: 3, plan: vec![], ops: vec![Op::Disable, Op::Open, Op::Disable, Op::Disable, Op::Close, Op::Disable],
+                faults: vec![], claim_err: None, control_err: None, clear_halt_err: None, release_err: None, resp_ms: 1, u3v_cap: cap, sirm_addr: sirm };
+            run_session(&mut rep, &spec, "degenerate-sirm");
+        }
+    }
     // ops on a handle that was never opened, large write with a failing chunk in the second block
     {
-        let spec = SessionSpec { seed: 5, adv_cmd: 64, adv_ack: 64, retry: 3, plan: vec![], ops: vec![Op::Read { addr: 0, n: 4 }, Op::Write { addr: 0, n: 4, pat: 0 }, Op::Close], faults: vec![], claim_err: None, control_err: None, clear_halt_err: None, release_err: None, resp_ms: 1 };
+        let spec = SessionSpec { seed: 5, adv_cmd: 64, adv_ack: 64, retry: 3, plan: vec![], ops: vec![Op::Read { addr: 0, n: 4 }, Op::Write { addr: 0, n: 4, pat: 0 }, Op::Close], faults: vec![], claim_err: None, control_err: None, clear_halt_err: None, release_err: None, resp_ms: 1, u3v_cap: 1, sirm_addr: 0x2_0000 };
         run_session(&mut rep, &spec, "not-opened");
         let spec = SessionSpec { seed: 5, adv_cmd: 70_000, adv_ack: 70_000, retry: 3, plan: vec![], ops: vec![Op::Open, Op::Write { addr: 0x10_0000, n: 140_000, pat: 0 }, Op::Read { addr: 0x10_0000, n: 140_000 }],
-            faults: vec![(7, Fault::WrittenLen(7)), (10, Fault::PayloadResize(9000))], claim_err: None, control_err: None, clear_halt_err: None, release_err: None, resp_ms: 1 };
+            faults: vec![(7, Fault::WrittenLen(7)), (10, Fault::PayloadResize(9000))], claim_err: None, control_err: None, clear_halt_err: None, release_err: None, resp_ms: 1, u3v_cap: 1, sirm_addr: 0x2_0000 };
         run_session(&mut rep, &spec, "large");
     }
     rep.write(&args);
